@@ -416,6 +416,18 @@ class BasicBlock(Value):
         # executed immediately, we record them and then apply them here
 
         if self.__replaceUses:
+            # A replacement value may itself be scheduled for replacement
+            # (store a; load a; store b; load b): follow such chains, so no
+            # use ends up pointing at an instruction that is removed below
+            for ref, new in self.__replaceUses.items():
+                while (
+                    isinstance(new, Value)
+                    and new.Reference != ref
+                    and new.Reference in self.__replaceUses
+                ):
+                    new = self.__replaceUses[new.Reference]
+                self.__replaceUses[ref] = new
+
             # We replace uses first: Otherwise, we could remove an instruction
             # and all references to it, and there is no way to fix this
             # once the reference to the instruction has been removed
